@@ -1,5 +1,5 @@
 """property id -> rules, explanation of what is / is not decided"""
-from rules import r_coord, r_keyid, r_opcode, r_doaction, r_cancel, r_idle, r_loop, r_traverse, r_repeat, r_chv2
+from rules import r_coord, r_keyid, r_opcode, r_doaction, r_cancel, r_idle, r_loop, r_traverse, r_repeat, r_chv2, r_wait
 
 PROPS = {
     "C01": {
@@ -17,6 +17,17 @@ PROPS = {
                        "arms of do_action push their state on every path (R-STATE-PUSH).",
         "not_decided": "equality with the layered-keymap model: search order of held layers, output ordering, one event per "
                        "millisecond — functions of run-time values",
+    },
+    "C05": {
+        "rules": [r_wait.run_all],
+        "explanation": "Decides: (R-WAIT) each waiting_into_hold/tap/timeout clears its slot on every path before do_action (a "
+                       "decision is consumed once) and performs an action whose provenance is exactly the hold / tap / "
+                       "timeout_action field; Layout::tick and process_extra_waitings dispatch the four WaitingAction variants to "
+                       "the same callees; (R-WAIT-OUTCOME) in handle_hold_tap, Hold is built only inside a HoldTapConfig arm (early "
+                       "trigger) and the common release-vs-timeout tail builds only Tap/Timeout; (R-GATE) queue.pop_front() in tick "
+                       "is reachable only with waiting == None, extra_waiting empty and the processing pause not active.",
+        "not_decided": "the timeout boundary tick (> vs >=), the early-trigger predicates of each variant, ordering of replayed "
+                       "keys — value-level",
     },
     "C06": {
         "rules": [r_doaction.rule_osh_arms],
